@@ -165,6 +165,12 @@ class Skin(Controller):
 
         self.max_joint_index = max([numpy.max(joint) for joint in self.joint_index if len(joint) > 0], default=-1)
         self.max_weight_index = max([numpy.max(weight) for weight in self.weight_index if len(weight) > 0], default=-1)
+        # a joint index of -1 refers to the bind shape; anything below it, and any negative
+        # weight index, points nowhere
+        min_joint_index = min([numpy.min(joint) for joint in self.joint_index if len(joint) > 0], default=0)
+        min_weight_index = min([numpy.min(weight) for weight in self.weight_index if len(weight) > 0], default=0)
+        if min_joint_index < -1 or min_weight_index < 0:
+            raise DaeMalformedError('Negative joint or weight index in skin')
         checkSource(self.weight_joints, ('JOINT',), self.max_joint_index)
         checkSource(self.weights, ('WEIGHT',), self.max_weight_index)
 
